@@ -203,6 +203,15 @@ def r20_3(prog: Program, chk: Check) -> None:
         chk.ob("R20.3", f"type_evaluation::_OP_TO_DATA::{a}", row is not None and row[1] == b_, site, f"`{a}` must negate to `{b_}`")
 
 
+def _one_sided_return(st: ast.stmt, side: str, other: str) -> bool:
+    """`return ConditionReturn(<side>=<something built from result.<side>>, ...)` without a `<other>=` argument
+    (the value may also fold in what earlier operands held back: R20.7 decides what it has to be)."""
+    if not (isinstance(st, ast.Return) and isinstance(st.value, ast.Call)):
+        return False
+    kws = {k.arg: k.value for k in st.value.keywords}
+    return side in kws and other not in kws and f"result.{side}" in norm(kws[side])
+
+
 def r20_4(prog: Program, chk: Check) -> None:
     chk.rule("R20.4", "evaluator control: branch execution follows the varmaps, blocks stop at the first definite return, show_error records the active conditions, Any matches only Any by default", floor=9)
     vi = prog.func("type_evaluation", "EvaluateVisitor.visit_If")
@@ -272,11 +281,11 @@ def r20_4(prog: Program, chk: Check) -> None:
         if isinstance(n, ast.If) and norm(n.test) == "result.left_varmap is None":
             gs = {(norm(g), pol) for g, pol in guards_of(n, bo)}
             if ("is_and", True) in gs:
-                ok_and = isinstance(n.body[-1], ast.Return) and "right_varmap=result.right_varmap" in norm(n.body[-1]) and "left_varmap" not in norm(n.body[-1])
+                ok_and = _one_sided_return(n.body[-1], "right_varmap", "left_varmap")
         if isinstance(n, ast.If) and norm(n.test) == "result.right_varmap is None":
             gs = {(norm(g), pol) for g, pol in guards_of(n, bo)}
             if ("is_and", False) in gs:
-                ok_or = isinstance(n.body[-1], ast.Return) and "left_varmap=result.left_varmap" in norm(n.body[-1]) and "right_varmap" not in norm(n.body[-1])
+                ok_or = _one_sided_return(n.body[-1], "left_varmap", "right_varmap")
     chk.ob("R20.4", "type_evaluation::ConditionEvaluator.visit_BoolOp::short-circuit", ok_and and ok_or, prog.site("type_evaluation", bo), "`and` must fail as soon as one operand definitely fails, `or` must succeed as soon as one definitely succeeds")
 
 
